@@ -15,6 +15,8 @@ DEAD_MODULES = {"cij.core.modulus_worker": "import commented out in calculator.p
 
 
 class Mod:
+    CANONICALISE = True
+
     def __init__(self, name: str, path: Path):
         self.name, self.path = name, path
         self.rel = str(path.relative_to(REPO))
@@ -26,6 +28,119 @@ class Mod:
         self.globals = {}     # name -> value node (module-level Assign)
         self.star_imports = []
         self._index()
+        self.exported_names = set(self.imports) | set(self.globals) | set(self.classes) | {q for q in self.funcs if "." not in q}
+        if Mod.CANONICALISE:
+            self._canonicalise_external_names()
+
+    def _canonicalise_external_names(self):
+        """rewrite every use of an alias of an EXTERNAL import to the canonical dotted path (`np.exp` -> `numpy.exp`,
+        `from glob import glob; glob(p)` -> `glob.glob(p)`, `nax` -> `numpy.newaxis`) and the import statements to plain
+        `import <module>`, so that rules and transfer functions see one spelling whatever the import style.  Imports made
+        inside a function apply to that function; names a function binds itself (parameters, assignment targets) are left alone."""
+        self.exported_names = set(self.imports) | set(self.globals) | set(self.classes) | {q for q in self.funcs if "." not in q}
+
+        def aliases_of(stmts_owner, top_level):
+            """alias -> canonical for the import statements directly in this scope (not in nested functions)"""
+            out = {}
+            todo = list(stmts_owner)
+            while todo:
+                n = todo.pop(0)
+                if isinstance(n, (ast.FunctionDef, ast.AsyncFunctionDef, ast.ClassDef, ast.Lambda)):
+                    if isinstance(n, ast.ClassDef) and top_level:
+                        todo.extend(n.body)
+                    continue
+                if isinstance(n, ast.Import):
+                    for a in n.names:
+                        if a.name.split(".")[0] == "cij":
+                            continue
+                        if a.asname and a.asname != a.name:
+                            out[a.asname] = a.name
+                elif isinstance(n, ast.ImportFrom):
+                    base = n.module or ""
+                    if n.level or not base or base == "cij" or base.startswith("cij."):
+                        continue
+                    for a in n.names:
+                        if a.name != "*":
+                            out[a.asname or a.name] = f"{base}.{a.name}"
+                else:
+                    todo.extend(c for c in ast.iter_child_nodes(n) if isinstance(c, ast.stmt) or isinstance(c, (ast.ExceptHandler,)))
+            return {k: v for k, v in out.items() if k != v}
+
+        top = aliases_of(self.tree.body, True)
+        if not top and not any(isinstance(n, (ast.Import, ast.ImportFrom)) for f in ast.walk(self.tree) if isinstance(f, ast.FunctionDef) for n in ast.walk(f)):
+            return
+
+        def attr_chain(dotted, ctx_node):
+            parts = dotted.split(".")
+            node = ast.Name(id=parts[0], ctx=ast.Load())
+            for p in parts[1:]:
+                node = ast.Attribute(value=node, attr=p, ctx=ast.Load())
+            return ast.copy_location(node, ctx_node)
+
+        def bound_in(fn):
+            names = {a.arg for a in fn.args.posonlyargs + fn.args.args + fn.args.kwonlyargs}
+            if fn.args.vararg:
+                names.add(fn.args.vararg.arg)
+            if fn.args.kwarg:
+                names.add(fn.args.kwarg.arg)
+            for n in ast.walk(fn):
+                if isinstance(n, ast.Name) and isinstance(n.ctx, ast.Store):
+                    names.add(n.id)
+            return names
+
+        class T(ast.NodeTransformer):
+            def __init__(self):
+                self.alias = [dict(top)]
+
+            def visit_FunctionDef(self, node):
+                cur = dict(self.alias[-1])
+                local = aliases_of(node.body, False)
+                # a plain `import x` inside the function re-binds x to the module: drops an outer alias of that name
+                for n in ast.walk(node):
+                    if isinstance(n, ast.Import):
+                        for a in n.names:
+                            if a.asname is None:
+                                cur.pop(a.name.split(".")[0], None)
+                cur.update(local)
+                for b in bound_in(node):
+                    cur.pop(b, None)
+                node.decorator_list = [self.visit(d) for d in node.decorator_list]
+                self.alias.append(cur)
+                node.args = self.generic_visit(node.args)
+                node.body = [self.visit(b) for b in node.body]
+                if node.returns is not None:
+                    node.returns = self.visit(node.returns)
+                self.alias.pop()
+                return node
+
+            visit_AsyncFunctionDef = visit_FunctionDef
+
+            def visit_Lambda(self, node):
+                cur = {k: v for k, v in self.alias[-1].items() if k not in {a.arg for a in node.args.args}}
+                self.alias.append(cur)
+                node.body = self.visit(node.body)
+                self.alias.pop()
+                return node
+
+            def visit_Name(self, node):
+                if isinstance(node.ctx, ast.Load) and node.id in self.alias[-1]:
+                    return attr_chain(self.alias[-1][node.id], node)
+                return node
+
+            def visit_Import(self, node):
+                node.names = [a if a.name.split(".")[0] == "cij" else ast.alias(name=a.name, asname=None) for a in node.names]
+                return node
+
+            def visit_ImportFrom(self, node):
+                base = node.module or ""
+                if node.level or not base or base == "cij" or base.startswith("cij.") or any(a.name == "*" for a in node.names):
+                    return node
+                return ast.copy_location(ast.Import(names=[ast.alias(name=base, asname=None)]), node)
+
+        self.tree = ast.fix_missing_locations(T().visit(self.tree))
+        self.imports, self.funcs, self.classes, self.globals, self.star_imports = {}, {}, {}, {}, []
+        self._index()
+        self.reexports = dict(top)      # names other modules may import from this one: local name -> canonical external path
 
     def _index(self):
         pkg = self.name.rsplit(".", 1)[0] if not self.path.name == "__init__.py" else self.name
@@ -81,6 +196,16 @@ class Mod:
 
 
 class Model:
+    @staticmethod
+    def raw(repo: Path = REPO):
+        """the model over the source exactly as written (no canonicalisation of import aliases): used by name-binding rules"""
+        old = Mod.CANONICALISE
+        Mod.CANONICALISE = False
+        try:
+            return Model(repo)
+        finally:
+            Mod.CANONICALISE = old
+
     def __init__(self, repo: Path = REPO):
         self.repo = repo
         self.mods: dict[str, Mod] = {}
@@ -172,6 +297,8 @@ class Model:
                 return "func", f"{base}:{name}"
             if name in m.imports:
                 return self.resolve_import(m.imports[name], _depth + 1)
+            if name in getattr(m, "reexports", {}):
+                return "ext", m.reexports[name]
             if name in m.globals:
                 return "global", f"{base}:{name}"
             if f"{base}.{name}" in self.mods:
